@@ -18,6 +18,7 @@ REGISTRY = {
     "C05": ("harness.p_expr", 25, 900),
     "C06": ("harness.p_expr", 25, 900),
     "C10": ("harness.p_expr", 25, 900),
+    "C19": ("harness.p_c19", 120, 1200),
 }
 
 
